@@ -89,7 +89,14 @@ def explore(
     order; that order decides which counterexample represents a signature.
     """
     order = {K.stable_hash(c): i for i, c in enumerate(cases)}
-    sched = sorted(cases, key=lambda c: -est_cost(c))
+    # Cheapest first (stable: canonical order among equals), so that a time
+    # cap cuts the expensive tail and never the simple cases; the few most
+    # expensive compiles start at once on a quarter of the workers so they
+    # do not form a long tail.  Verdicts do not depend on this order.
+    asc = sorted(cases, key=est_cost)
+    k = max(1, ctx.procs // 4)
+    heavy = asc[-k:][::-1] if len(asc) > 8 * k else []
+    sched = heavy + asc[:len(asc) - len(heavy)]
     # VERIF_DEADLINE=<seconds> overrides the tier's time cap (slow or
     # heavily shared machines)
     deadline_s = float(os.environ.get('VERIF_DEADLINE', deadline_s))
